@@ -57,6 +57,34 @@ NEEDS = {
               "start() of the next access landing between the load and the store in done() of the released one"),
     "C05-2": ("resume_processing_unit notifies the sleeping worker once instead of until it leaves 'sleeping'",
               "resume() (or stop()) called right after suspend() returned, while the worker is between storing 'sleeping' and blocking on its condition variable"),
+    "C07-2": ("condition_variable::wait releases the user lock before taking the internal lock",
+              "a notifier that takes the user lock, sets the predicate and notifies in the gap between the waiter's unlock and its enqueue (or a user lock whose unlock returns slowly)"),
+    "C08-2": ("counting_semaphore::wait_until: a timed waiter woken by a release takes a permit without re-checking the count",
+              "a task blocked in a timed acquire, a release that wakes it, and a competing acquirer that takes the permit before the waiter resumes"),
+    "C09-2": ("barrier::arrive_and_drop arrives before it records the drop in expected_adjustment",
+              "arrive_and_drop as the last arrival of a phase and the barrier used for at least one more phase"),
+    "C10-2": ("do_yield records the global instead of the pool-local worker number as last worker",
+              "a non-first pool whose thread offset is not a multiple of its size, a static policy there, and a hinted task that really suspends and is resumed"),
+    "C11-2": ("contiguous_index_queue::pop_left checks for emptiness only before the CAS loop",
+              "owner pop_left on the last chunk racing with a stealer's pop_right (failed CAS, refreshed range empty)"),
+    "C12-2": ("a huge stack request takes a recycled thread object from the large heap",
+              "a large-stack task terminated and recycled on a queue, then a huge-stack task created on the same queue"),
+    "C13-2": ("add_thread_exit_callback tests 'already ran / terminated' before taking the lock",
+              "join() registering its callback exactly while the target runs its (empty) exit-callback phase"),
+    "C14-2": ("lock_and_request_stop no longer tests stop_requested while spinning on the lock bit",
+              "a requester whose first CAS failed because a callback (de)registration held the lock bit, and another requester that wins and unlocks while the first one spins"),
+    "C15-2": ("decode_scatter_distribution keeps its use_pu flag across cores of a pass",
+              "--pika:bind=scatter on an SMT topology, a mask that drops a core or the first hardware thread of a non-first core, more workers than cores in the mask"),
+    "C16-2": ("PIKA_COMMANDLINE_OPTIONS tokens are appended after the real command line instead of prepended",
+              "the same --pika:ini key in PIKA_COMMANDLINE_OPTIONS and on the command line (the environment's entry wins), or '--' on the command line"),
+    "C17-2": ("deque pushes treat the deque as stable unless a push is in flight on their own end",
+              "push_left and push_right racing on one deque: one push overwrites the other's unstabilised status"),
+    "C18-2": ("function_base::swap repairs only one of the two inline-storage pointers",
+              "swap, or move-assignment onto a non-empty wrapper, with both targets stored inline"),
+    "C19-2": ("suspend_processing_unit_internal returns at once when the PU is not 'running' (also for 'pre_sleep')",
+              "whole-pool suspend followed immediately by resume: suspend returns before the workers sleep, resume notifies nobody, the workers then sleep forever"),
+    "C20-2": ("poll_multithreaded's first drain loop decrements the global activity count before invoking the callback",
+              "two workers polling, a completion taken over by the other worker, a continuation still running when pika::wait() looks at the count"),
     "C06-2": ("mutex::try_lock tests the owner before taking the internal spinlock",
               "two simultaneous acquisitions of a free mutex, at least one of them try_lock"),
 }
